@@ -148,6 +148,12 @@ static Case gen_C16(const GenCtx &ctx) {
   auto bigdim = [&]() { return g::wpick<int>({{3, g::rng(513, big)}, {1, 512 + g::rng(1, 3)}, {2, 128 * g::rng(4, std::max(4, big / 128)) + g::pick<int>({0, 0, 0, 1, 63, 64, 127})}}); };
   if (r == "mzd_echelonize_m4ri" || r == "mzd_echelonize") {
     int m = bigdim(), n = g::wpick<int>({{2, bigdim()}, {1, g::rng(1, 400)}});
+    if (g::coin(1, 3)) {
+      // tall: the row loops hand out static chunks of 512 rows round-robin, so a thread only gets a SECOND chunk when there are
+      // more than 512 * T rows; few columns keep it cheap and put the last block into every table-count band
+      m = g::rng(1025, 2700);
+      n = g::rng(20, 330);
+    }
     c.set("m", m).set("n", n).set("full", g::rng(0, 1));
     if (r == "mzd_echelonize_m4ri") c.set("k", g::rng(0, 8));
     g::rankpat(c, "A", m, n);
@@ -155,6 +161,11 @@ static Case gen_C16(const GenCtx &ctx) {
   } else {
     int m = bigdim(), l = g::wpick<int>({{2, bigdim()}, {1, g::rng(129, 400)}, {1, 128 * g::rng(1, 4)}}),
         n = g::wpick<int>({{2, bigdim()}, {1, g::rng(129, 400)}, {1, 128 * g::rng(1, 4)}});
+    if (r == "mzd_mul_m4rm" && g::coin(1, 3)) {  // tall and thin: second static chunk per thread (see above)
+      m = g::rng(1025, 2700);
+      l = g::rng(16, 200);
+      n = g::rng(54, 200);
+    }
     c.set("m", m).set("l", l).set("n", n);
     if (r == "mzd_mul_m4rm") c.set("k", g::rng(0, 8));
     else c.set("cutoff", g::pick<int>({0, 64, 128, 192, 256, 512}));
@@ -212,7 +223,8 @@ static Verdict exec_C16(const Case &c) {
 }
 RegisterProp p_C16({"C16",
                     "random: route (mzd_mul_mp, mzd_addmul_mp, mzd_mul, mzd_addmul, mzd_mul_m4rm, mzd_echelonize_m4ri full 0/1, "
-                    "mzd_echelonize) x shapes with > 512 rows (static chunks of 512 spread over threads) and remainder strips that are "
+                    "mzd_echelonize) x shapes with > 512 rows (static chunks of 512 spread over threads; a third of the elimination and M4RM "
+                    "cases tall, 1025..2700 rows, so that a thread receives a second chunk) and remainder strips that are "
                     "not multiples of 128 x cutoff x destination NULL / junk, executed for each thread count of a generated list out of "
                     "{1,2,3,4,5,7,8,16} (omp_set_num_threads) with nesting levels 1 and 2 (OMP_MAX_ACTIVE_LEVELS per shard); oracle: every "
                     "execution equals the reference model, all thread counts give the same digest, and the same case list executed by "
